@@ -117,9 +117,15 @@ class Real(object):
         self.mod = parameters
         self.tok = tok
         self.p = parameters.parameters()
-        self.o = Other()
-        for n, t in (other0.items() if isinstance(other0, dict) else []):
-            setattr(self.o, n, tok.value(t))
+        # the companion object: every other attribute it starts with is a CLASS-level default (what a detector or a peak-search object
+        # typically has), the rest are instance attributes; both are attributes as far as hasattr / getattr / setattr go
+        items = sorted(other0.items()) if isinstance(other0, dict) else []
+        cls = type("Other", (object,), {n: tok.value(t) for k_, (n, t) in enumerate(items) if k_ % 2 == 0 and n.isidentifier()})
+        self.o = cls()
+        self.onames = set(n for n, t in items)
+        for k_, (n, t) in enumerate(items):
+            if not (k_ % 2 == 0 and n.isidentifier()):
+                setattr(self.o, n, tok.value(t))
         self.path = os.path.join(wd, "pars-%d.txt" % os.getpid())
 
     def project(self, ret):
@@ -131,7 +137,7 @@ class Real(object):
         return {"pars": {n: tk(v) for n, v in self.p.get_parameters().items()},
                 "varylist": list(self.p.varylist), "variable_list": list(self.p.get_variable_list()),
                 "stepsizes": {n: tk(v) for n, v in self.p.stepsizes.items()},
-                "other": {n: tk(v) for n, v in vars(self.o).items()}, "ret": ret}
+                "other": {n: tk(getattr(self.o, n)) for n in sorted(self.onames | set(vars(self.o)))}, "ret": ret}
 
     def step(self, e):
         V = self.tok.value
@@ -189,6 +195,7 @@ class Real(object):
                 self.p.update_yourself(self.o)
             elif ev == "other_set":
                 setattr(self.o, e["n"], V(e["v"]))
+                self.onames.add(e["n"])
             elif ev == "save":
                 self.p.saveparameters(self.path)
             elif ev == "load":
